@@ -47,7 +47,7 @@ EXPLANATION = ('Unbounded Coq theorems (every width > 0, every in-range operand)
                'out-of-range constants. Repaired defects: float->int rounding and phis of the untaken successor (fixed '
                'in /repo; _refuted theorems kept about the old generators). Known findings with proposed repairs: '
                'rol/ror emitted as invalid Python (c24_binop_rol_refuted; repaired lowering proved exact in '
-               'c24_binop_rot_exact), NaN constant emitted as bare `nan`, rt.free of a statically summed size.')
+               'c24_binop_rot_exact), NaN constant emitted as bare `nan`, rt.free of a statically summed size. Wave 5: the runtime OBJECT (Model/Ir2PyRt.v: heap/stack bytearrays, get_memory dispatch at the exported HEAP_START, alloca, free, heap_top; scripts run on the emitted IrPy every run): c24_rt_alloca_store_load_free (alloca n; store/load of any integer type inside the block is exact, heap and older stack untouched; free n restores the state) and c24_rt_heap_store_load; stack-relative negative addresses not modelled.')
 TRUSTED = ['tools/py2coq.py on the emitted helper text (cross-checked per run against exec of the same text)',
            'hand model Model/Ir2Py.v of the emitted statements (cross-checked per run: printed text == emitted '
            'text for every (op, type); value agreement on the pools)',
@@ -160,6 +160,17 @@ def get_memory(self, v):
 '''
 
 
+def emitted_heap_start(text):
+    """the integer literal assigned to HEAP_START in the body of the emitted class IrPy"""
+    cls = [n for n in ast.parse(text).body if isinstance(n, ast.ClassDef) and n.name == 'IrPy']
+    vals = [n.value.value for c in cls for n in c.body
+            if isinstance(n, ast.Assign) and len(n.targets) == 1 and isinstance(n.targets[0], ast.Name)
+            and n.targets[0].id == 'HEAP_START' and isinstance(n.value, ast.Constant) and type(n.value.value) is int]
+    if len(vals) != 1:
+        raise TieBroken('emitted class IrPy has no single integer HEAP_START')
+    return vals[0]
+
+
 def regen(ctx):
     import py2coq
     text = emitted_runtime_text()
@@ -185,6 +196,8 @@ def regen(ctx):
     coq += '(* (type name, unpack format, size read, pack format) of every emitted load_/store_ pair *)\n'
     coq += 'Definition ls_table : list (string * string * Z * string) := [\n'
     coq += ';\n'.join('  ("%s", "%s", %d, "%s")' % r for r in rows) + '].\nClose Scope string_scope.\n'
+    coq += '(* class attribute IrPy.HEAP_START of the emitted runtime (used by Model.Ir2PyRt) *)\n'
+    coq += 'Definition heap_start : Z := %s.\n' % vlib.coq_z(emitted_heap_start(text))
     changed = ctx.write_gen('ir2py_runtime', coq)
     ctx.cov['stages']['gen_ir2py_runtime'] = {'functions': hashes, 'ls_rows': len(rows), 'changed_on_disk': changed}
     return infos, rows, text
@@ -917,10 +930,10 @@ def run(ctx):
     ir, _, _ = _ppci()
     thorough = not ctx.quick()
     infos, rows, rt_text = regen(ctx)
-    ok, _ = ctx.build(['Proofs/C24_ir2py.vo', 'Proofs/C24_func.vo', 'Proofs/C24_rot.vo', 'Proofs/C24_mod.vo'])
+    ok, _ = ctx.build(['Proofs/C24_ir2py.vo', 'Proofs/C24_func.vo', 'Proofs/C24_rot.vo', 'Proofs/C24_mod.vo', 'Proofs/C24_rt.vo'])
     if ok:
         ctx.check_props('Props/C24.v')
-    model_ok = ctx.build(['Model/Ir2Py.vo', 'Model/Ir2PyFunc.vo', 'Model/Ir2PyRot.vo', 'Model/Ir2PyMod.vo', 'Lib/Val.vo'])[0]
+    model_ok = ctx.build(['Model/Ir2Py.vo', 'Model/Ir2PyFunc.vo', 'Model/Ir2PyRot.vo', 'Model/Ir2PyMod.vo', 'Model/Ir2PyRt.vo', 'Lib/Val.vo'])[0]
 
     # ---- emit the one-instruction module once
     m, idx = build_arith_module(ir)
@@ -1054,6 +1067,63 @@ def run(ctx):
                     r.stack = bytearray(data)
                     return getattr(r, 'load_' + ty)(addr)
                 add('load "%s" %s %d' % (ty, to_term(data), addr), outcome(do_load), ('load', (ty, data, addr)))
+    # ---- (d') the runtime OBJECT: scripts of alloca / free / store / load / heap_top on the emitted IrPy vs
+    #      Model.Ir2PyRt.run_ops (outputs, final heap bytes, final stack bytes); addresses >= 0 only
+    HS = emitted_heap_start(rt_text)
+    ity = [r for r in rows if r[1] not in ('f', 'd')]
+    n_rt = 0
+    for k in range(90 if thorough else 45):
+        heap0 = [ctx.rng.randrange(256) for _ in range(ctx.rng.choice([0, 4, 9, 16]))]
+        stack0 = [ctx.rng.randrange(256) for _ in range(ctx.rng.choice([0, 0, 3, 8]))]
+        ops, sl, allocs = [], len(stack0), []
+        for _ in range(ctx.rng.randrange(2, 9)):
+            kind = ctx.rng.choice(['alloca', 'alloca', 'store', 'store', 'store', 'load', 'load', 'free', 'top'])
+            if kind == 'alloca':
+                n = ctx.rng.choice([0, 1, 2, 4, 8, 8, 16, -1] if k % 9 == 0 else [0, 1, 2, 4, 8, 8, 16])
+                ops.append(('alloca', n))
+                allocs.append(n)
+                sl += max(n, 0)
+            elif kind == 'free':
+                n = allocs.pop() if allocs and ctx.rng.random() < 0.8 else ctx.rng.choice([0, 1, 3, sl, sl + 1, -2])
+                ops.append(('free', n))
+                sl = max(sl - max(n, 0), 0)
+            elif kind == 'top':
+                ops.append(('top',))
+            else:
+                ty, lfmt, size, sfmt = ctx.rng.choice(ity)
+                if ctx.rng.random() < 0.5:
+                    addr = ctx.rng.choice([0, max(sl - size, 0), ctx.rng.randrange(0, sl + 2), sl, HS - 1])
+                else:
+                    addr = HS + ctx.rng.choice([0, max(len(heap0) - size, 0), ctx.rng.randrange(0, len(heap0) + 2)])
+                if kind == 'store':
+                    v = ctx.rng.choice(value_pool(ctx.rng, 8 * size, lfmt.islower()) + [1 << (8 * size)])
+                    ops.append(('store', ty, addr, v))
+                else:
+                    ops.append(('load', ty, addr))
+
+        def do_script(heap0=heap0, stack0=stack0, ops=ops):
+            r = IrPy()
+            r.heap, r.stack, out = bytearray(heap0), bytearray(stack0), []
+            for o in ops:
+                if o[0] == 'alloca':
+                    out += list(r.alloca(o[1]))
+                elif o[0] == 'free':
+                    r.free(o[1])
+                elif o[0] == 'store':
+                    getattr(r, 'store_' + o[1])(o[2], o[3])
+                elif o[0] == 'load':
+                    out.append(getattr(r, 'load_' + o[1])(o[2]))
+                else:
+                    out.append(r.heap_top())
+            return (out, list(r.heap), list(r.stack))
+        cops = {'alloca': lambda o: 'OAlloca %s' % z(o[1]), 'free': lambda o: 'OFree %s' % z(o[1]),
+                'store': lambda o: 'OStore "%s" %s %s' % (o[1], z(o[2]), z(o[3])),
+                'load': lambda o: 'OLoad "%s" %s' % (o[1], z(o[2])), 'top': lambda o: 'OTop'}
+        term = 'run_ops (mk_rt %s %s) [%s] []' % (to_term(heap0), to_term(stack0), '; '.join(cops[o[0]](o) for o in ops))
+        add(term, outcome(do_script), ('rt-script', (heap0, stack0, ops)))
+        n_rt += 1
+    ctx.cov['stages']['rt_object_scripts'] = {'scripts': n_rt, 'heap_start': HS,
+                                              'ops': 'alloca/free/store_<ity>/load_<ity>/heap_top, addresses >= 0'}
     n_mem = len(cases) - n_helper - n_text - n_value
 
     # ---- (e) phis: emitted tuple assignments vs the model of the variant this tree emits
@@ -1169,7 +1239,7 @@ def run(ctx):
     if model_ok:
         import time
         t0 = time.time()
-        bad = run_batched(ctx, 'ir2py', ['Spec.IRSemArith', 'Gen.ir2py_runtime', 'Model.Ir2Py', 'Model.Ir2PyFunc', 'Model.Ir2PyRot', 'Model.Ir2PyMod', 'Spec.IRSyntax'], cases)
+        bad = run_batched(ctx, 'ir2py', ['Spec.IRSemArith', 'Gen.ir2py_runtime', 'Model.Ir2Py', 'Model.Ir2PyFunc', 'Model.Ir2PyRot', 'Model.Ir2PyMod', 'Model.Ir2PyRt', 'Spec.IRSyntax'], cases)
         ctx.cov['stages']['correspondence_wall_s'] = round(time.time() - t0, 1)
         if bad:
             for i in bad[:6]:
